@@ -18,7 +18,7 @@ def run(tier, seed):
     quick = tier == 'quick'
     tbuild = common.build_mmdump()
     mirs = common.prog_mirs()
-    groups = ['op', 'st', 'ct', 'cl', 'gn', 'ga', 'fx', 'sc']
+    groups = ['op', 'st', 'ct', 'cl', 'fi', 'gn', 'ga', 'fx', 'sc']
     files = common.corpus_files(groups, tier, seed)
     steps = 3 if quick else 6
     budget = 60 if quick else 300
